@@ -657,7 +657,7 @@ def ResolveBinaryExpressionType(
 
         # At this point, must be a MUL of matrix * vector or matrix * matrix
         # We must prevent vector * vector
-        if leftShape[1] != rightShape[0]:
+        if left.IsVector() or leftShape[1] != rightShape[0]:
             Errors.ERROR_INVALID_BINARY_EXPRESSION_OPERATION.Raise(
                 operation, left, right
             )
